@@ -87,4 +87,56 @@ func init() {
 		Intrinsics: []string{"strings.ToLower: exact rune-wise model from unicode.CaseRanges (decode, map, encode)", "(*Regexp).FindStringSubmatch: leftmost-first backtracking over regexp/syntax's program, results guarded and decided by the solver",
 			"sync.Once.Do, fmt.Errorf"},
 	})
+
+	reg(&Prop{
+		ID:    "C10",
+		Title: "HTMLEscaped yields inert, interchange-valid, round-tripping text for every input",
+		Harnesses: []HarnessSpec{
+			{Pkg: "safehtml", Name: "vHarness_C10_escaped", Quick: []ParamRange{{"n", 0, 3}}, Thorough: []ParamRange{{"n", 0, 4}}, Reach: []string{"ran"},
+				Desc: "HTMLEscaped(s) == rune-wise reference; alphabet scan; utf8.ValidString (stdlib SSA)"},
+			{Pkg: "safehtml", Name: "vHarness_C10_concat", Quick: []ParamRange{{"na", 0, 3}, {"nb", 0, 3}}, Thorough: []ParamRange{{"na", 0, 6}, {"nb", 0, 6}}, Reach: []string{"ran"},
+				Desc: "HTMLConcat is plain concatenation (0, 1, 2 arguments)"},
+		},
+		Probes: []ProbeSpec{
+			{Pkg: "safehtml", Name: "vProbe_C10_escaped", NArgs: 1, Alphabet: "a&<>\"'\x00\x01\t\n\x0b\x0c\r\x1f\x7f\x80\x9f\xc2\xef\xb7\x90\xbf\xbe\xf0\xf4\x8f\xed\xa0 ", MaxLen: 8, N: 2000, TestDir: ".",
+				Extra: []string{"\u0085", "\ufdd0", "\ufdef", "\ufffe", "\uffff", "\U0001fffe", "\U0010ffff", "\xed\xa0\x80", "\xc0\x80", "\u00a0", "\u2028", "\ufffd"}},
+			{Pkg: "safehtml", Name: "vProbe_C10_ref", NArgs: 1, Alphabet: "a&<>\"'\x00\x0b\x7f\xc2\x80\x9f\xef\xb7\x90\xbf\xbe ", MaxLen: 6, N: 500, Extra: []string{"\u0085", "\ufdd0", "\U0002ffff"}},
+		},
+		Functions: []string{"safehtml.HTMLEscaped", "safehtml.escapeAndCoerceToInterchangeValid", "safehtml.coerceToUTF8InterchangeValid", "safehtml.HTMLConcat", "safehtml.HTML.String",
+			"controlChar / controlAndNonCharacter as built by the real rangetable.Merge in the package initialiser", "unicode.Is, unicode.is16, unicode.is32 (stdlib SSA)", "unicode/utf8.ValidString (stdlib SSA, harness side)"},
+		Bounds: map[string]string{
+			"quick":    "every byte string of length 0..3 (every code point of <= 3 bytes, every invalid pattern of <= 3 bytes, all pairs and triples of shorter runes); HTMLConcat with 0..3 + 0..3 bytes",
+			"thorough": "every byte string of length 0..4 (adds every astral code point incl. plane-end noncharacters and every 4-byte invalid pattern); HTMLConcat with 0..6 + 0..6 bytes",
+		},
+		Outside: []string{"strings longer than the bound (the function is a rune-wise map; that longer inputs add no behaviour is an argument, not part of the solver claim)",
+			"tokenizer-placement clause (checked with the HTML tokenizer reference under C01/C03)", "html.UnescapeString round trip is implied by equality with the reference, not executed"},
+		Intrinsics: []string{"html.EscapeString: the five replacements (forks on replacement length)", "range over string / []rune<->string conversions: symbolic UTF-8 codec", "bytes.Buffer"},
+	})
+
+	reg(&Prop{
+		ID:    "C12",
+		Title: "URLSetSanitized keeps only safe image candidates under the WHATWG srcset parser",
+		Harnesses: []HarnessSpec{
+			{Pkg: "safehtml", Name: "vHarness_C12_sanitized", Quick: []ParamRange{{"ascii", 1, 1}, {"n", 0, 5}}, Thorough: []ParamRange{{"ascii", 1, 1}, {"n", 0, 7}}, Reach: []string{"candidates", "innocuous", "two-candidates"},
+				Desc: "re-parse the result with the WHATWG srcset splitter: every candidate URL is one URLSanitized keeps, descriptors number-like, bytes copied in order from the input, never empty"},
+			{Pkg: "safehtml", Name: "vHarness_C12_sanitized", Quick: []ParamRange{{"ascii", 0, 0}, {"n", 0, 3}}, Thorough: []ParamRange{{"ascii", 0, 0}, {"n", 0, 4}},
+				Desc: "same, arbitrary bytes"},
+			{Pkg: "safehtml", Name: "vHarness_C12_idempotent", Quick: []ParamRange{{"ascii", 1, 1}, {"n", 0, 5}}, Thorough: []ParamRange{{"ascii", 1, 1}, {"n", 0, 6}}, Reach: []string{"ran"},
+				Desc: "URLSetSanitized(URLSetSanitized(s)) == URLSetSanitized(s)"},
+		},
+		Probes: []ProbeSpec{
+			{Pkg: "safehtml", Name: "vProbe_C12_sanitize", NArgs: 1, Alphabet: "ab:/ ,,\t\n\f\r12.x(wjavscript%)", MaxLen: 14, N: 2000,
+				Extra: []string{"a.png 1x, b.png 2x", ",a,", "javascript:x 1x, /b 2w", "a 1e3x", "a 0x1p-2", "a inf", "a nan", "a 1_0", "a (1x, 2x)", "a,b", "a , b", "%2c", "a\f1x"}},
+		},
+		Functions: []string{"safehtml.URLSetSanitized", "safehtml.appendURLToSet", "safehtml.consumeIn", "safehtml.consumeNotIn", "safehtml.isOptionalSrcMetadataWellFormed", "safehtml.isSafeURL",
+			"asciiWhitespace / srcsetMetachars tables as filled by the real init()"},
+		Bounds: map[string]string{
+			"quick":    "every ASCII string of length 0..5 and every byte string of length 0..3; idempotence for ASCII strings of length 0..5",
+			"thorough": "every ASCII string of length 0..7 and every byte string of length 0..4; idempotence for ASCII strings 0..6",
+		},
+		Outside: []string{"strings longer than the bounds (at most 2-3 candidates fit)", "'number' is checked as: float-alphabet bytes, no parenthesis, at most one trailing letter (strconv.ParseFloat is a stub)",
+			"'copied' is checked as: in-order subsequence of the input; an inserted edge %2c is not tied to a comma of the input"},
+		Assumes:    []string{"strconv.ParseFloat(m) is an arbitrary function of m with err == nil only for non-empty m over the Go float alphabet"},
+		Intrinsics: []string{"strconv.ParseFloat stub (validated natively: real ParseFloat on concrete arguments)", "bytes.Buffer", "regexp (isSafeURL) as in C11"},
+	})
 }
